@@ -1,7 +1,7 @@
 (* Statements of Properties_C09.v that combine several lemmas: proved here so that the property file only
    contains `exact`. *)
 From Coq Require Import ZArith List Bool Arith Lia.
-From CV Require Import C09.ParseModel C09.ParseProofs C09.NumProofs C09.LookupProofs C09.FlatProofs C09.ValueProofs.
+From CV Require Import C09.ParseModel C09.ParseProofs C09.NumProofs C09.LookupProofs C09.FlatProofs C09.ValueProofs C09.OrigProofs C09.NestedProofs.
 Import ListNotations.
 Local Open Scope Z_scope.
 
@@ -50,13 +50,15 @@ Proof.
   - exists [99; 111; 108; 118; 97; 114], 6%nat. split; [reflexivity|]. unfold right_clear. cbn. lia.
 Qed.
 
-Lemma model_total_partial : forall strict schema raw, schema_ok schema ->
-  parse_config strict schema raw <> POutOfFuel /\
-  (forall conf, parse_flat strict schema conf <> POutOfFuel) /\
+Lemma model_total : forall strict schema raw, schema_ok schema ->
+  ((exists vs, parse_config strict schema raw = PAccept vs) \/ parse_config strict schema raw = PReject) /\
+  (forall conf, (exists vs, parse_flat strict schema conf = PAccept vs) \/ parse_flat strict schema conf = PReject) /\
   (forall conf key sp, key <> [] -> key_lookup (fuel_of conf) conf key sp <> KL_outoffuel).
 Proof.
-  intros strict schema raw H. split; [apply parse_config_total; exact H|].
-  split; [intros conf; apply parse_flat_total; exact H|exact key_lookup_total].
+  intros strict schema raw H. split; [apply parse_config_accept_or_reject; exact H|].
+  split; [|exact key_lookup_total].
+  intros conf. pose proof (parse_flat_total strict schema conf H) as T.
+  destruct (parse_flat strict schema conf) as [vs| |]; [left; exists vs; reflexivity|right; reflexivity|congruence].
 Qed.
 
 Lemma value_loop_fuel_suffices : forall f1 f2 l, (length l < f1)%nat -> (length l < f2)%nat ->
@@ -70,10 +72,10 @@ Proof.
   - exact (extract_all_fuel extract_word extract_word_progress dl f1 f2 l H1 H2).
 Qed.
 
-Lemma check_braces_counts : forall conf start,
-  (check_braces conf start = true <-> balanced (skipn start conf)) /\
-  (check_braces conf O = true <-> balanced conf).
-Proof. intros conf start. split; [apply check_braces_iff|apply check_braces_iff_balanced]. Qed.
+Lemma check_braces_nesting : forall conf start,
+  (check_braces conf start = true <-> well_nested (skipn start conf)) /\
+  (check_braces conf O = true <-> well_nested conf).
+Proof. intros conf start. split; [apply check_braces_iff|apply check_braces_iff_nested]. Qed.
 
 Lemma comments_and_line_ends :
   (forall p l q, ends_lf p -> no_lf l -> not_ending_cr l ->
@@ -125,3 +127,30 @@ Lemma single_line_value_layout_thm :
   (forall l c1 c2, trimmed_to l c1 -> trimmed_to l c2 -> c1 = c2).
 Proof. split; [exact extract_value_single_line|exact trimmed_unique]. Qed.
 
+
+(* whole-configuration independence of the raw-text layout: both clients see the configuration only through
+   strip_comments, so every rewrite that strip_comments does not see leaves the whole result unchanged *)
+Definition same_result (raw1 raw2 : list Z) : Prop :=
+  (forall strict schema, parse_config strict schema raw1 = parse_config strict schema raw2) /\
+  (forall strict items, nparse_config strict items raw1 = nparse_config strict items raw2).
+
+Lemma same_result_of_strip : forall raw1 raw2, strip_comments raw1 = strip_comments raw2 -> same_result raw1 raw2.
+Proof.
+  intros raw1 raw2 H. split; intros; [unfold parse_config|unfold nparse_config]; rewrite H; reflexivity.
+Qed.
+
+Lemma whole_configuration_raw_layout :
+  (forall p l q, ends_lf p -> no_lf l -> not_ending_cr l ->
+     same_result (p ++ l ++ CR :: LF :: q) (p ++ l ++ LF :: q)) /\
+  (forall p l c q, ends_lf p -> no_lf l -> no_lf c -> not_ending_cr l ->
+     same_result (p ++ l ++ HASH :: c ++ LF :: q) (p ++ l ++ LF :: q)) /\
+  (forall p w q, ends_lf p -> no_lf w -> all_ws (clean_line w) ->
+     same_result (p ++ w ++ LF :: q) (p ++ q)) /\
+  (forall p l, ends_lf p -> no_lf l -> l <> [] -> same_result (p ++ l) (p ++ l ++ [LF])).
+Proof.
+  split; [|split; [|split]]; intros; apply same_result_of_strip.
+  - apply strip_comments_crlf; assumption.
+  - apply strip_comments_trailing_comment; assumption.
+  - apply strip_comments_blank_line; assumption.
+  - apply strip_comments_final_newline; assumption.
+Qed.
